@@ -177,6 +177,9 @@ def common_obligations(ctx, repo, pid):
         check_params(ctx, repo, pid, scope, report_modules=mods)
         from .rules.params import check_dispatch_keys
         check_dispatch_keys(ctx, repo, pid, scope, report_modules=mods)
+        # INDEXTRUTH rule: emptiness of an index array must not be tested through the index values
+        from .rules.params import check_index_truth
+        check_index_truth(ctx, repo, pid, scope, report_modules=mods)
 
 
 def run_sentinels(ctx: Ctx, pid: str):
